@@ -19,6 +19,11 @@ BASES = [
     [fact(None, A("p", "a")), fact(None, A("p", "b")), fact("0.5", A("e", "a", "b")),
      rule(A("t", X, Y), [[True, A("e", X, Y)]]), rule(A("t", X, Y), [[True, A("e", X, Z)], [True, A("t", Z, Y)]])],
     [fact("0.6", A("s", "a")), rule(A("q", X), [[True, A("s", X)]], p="0.5")],
+    # an inherited predicate reached through a static call compiled in the parent, from inside findall/3 and
+    # all/3 (which extend the queried database once more); no possible-world reference for these (differential only)
+    [fact("0.5", A("p", "a")), rule(A("q", X), [[True, A("p", X)]]),
+     {"heads": [[None, A("two")]], "body": [], "text": "two :- findall(X, q(X), L), L = [_,_|_]."},
+     {"heads": [[None, A("cnt", X)]], "body": [], "text": "cnt(N) :- all(X, q(X), L), length(L, N)."}],
 ]
 MENU = [
     fact(None, A("p", "c")),
@@ -132,6 +137,8 @@ def check_history(bi, hist):
             return None, ("parent-changed", "database at level %d grew from %d to %d nodes" % (level, frozen_len, len(db)))
         if level == len(chain) - 1 and got[0] == "ok":
             prog = {"clauses": clauses, "queries": [[n, ["X", "Y", "Z"][:k]] for n, k in preds], "evidence": []}
+            if any(c.get("text") for c in clauses):
+                continue
             ref = progcheck.reference(prog)
             if ref["kind"] == "answer":
                 plain = lambda o: (o[0], {k: v for k, v in o[1].items() if not k.startswith("ground-call:")}) if o[0] == "ok" else o
@@ -162,7 +169,7 @@ class C29(Prop):
     pid = "C29"
     title = "Extending a prepared database is equivalent to preparing the union"
     technique = ("explicit-state BFS over histories of {add one of 8 clauses to the newest extension, extend again} on the "
-                 "real ClauseDB for 5 base programs; after every step every database of the chain is queried (all "
+                 "real ClauseDB for 6 base programs (one calling findall/3 and all/3 over an inherited predicate); after every step every database of the chain is queried (all "
                  "predicates, non-ground) through the real engine and compared with a fresh preparation of exactly its "
                  "clause list and with the possible-world reference; frozen parents must keep their node count")
     rule = ("states = (base program, clause lists per extension level); transitions = history steps executed; depth 3 "
